@@ -66,7 +66,7 @@ def _self_reads(prog: Program, ci: ClassInfo, func: Func, seen: Optional[Set[str
 
 def run(prog: Program, rep, thorough: bool) -> None:
     A.reset()
-    rep.rule('C13.R1', 'magnitude written only at construction', 1 + 5 + 3 + 2)
+    rep.rule('C13.R1', 'magnitude written only at construction', 1 + 1 + 3 + 2)   # slots, >= 1 store site, hooks / ops / convert, memo
     rep.rule('C13.R2', 'comparison dunders compare the magnitude only', 5 + 1)
     rep.rule('C13.R3', 'hash reads a subset of what equality reads', 1)
     rep.rule('C13.R4', 'foreign units raise', 14)
